@@ -212,6 +212,11 @@ func (db *DB) collectGarbage() (collectedCount uint64, done bool, err error) {
 				continue
 			}
 			if errors.Is(err, storage.ErrNotFound) {
+				// the file is gone (e.g. deleted by the user, which leaves
+				// the counts of chunks shared with other files behind):
+				// only its gc entry is left to release, otherwise it stays
+				// the oldest candidate forever and blocks collection
+				recycledItems = append(recycledItems, item)
 				continue
 			}
 
